@@ -157,6 +157,8 @@ func c16BoundaryInstants(rg *Rng, zones []c16Zone) []c16Instant {
 			out = append(out, c16Instant{Sec: t.Unix(), Nsec: t.Nanosecond(), Zone: z})
 		}
 	}
+	// the zero time.Time itself (0001-01-01T00:00:00Z, IsZero() holds): an instant like any other
+	out = append(out, c16Instant{Sec: time.Time{}.Unix(), Nsec: 0, Zone: zones[0]})
 	_ = rg
 	return out
 }
